@@ -46,9 +46,23 @@ impl Prop for C15P {
                 v.push(format!("zst {}x{}", c, r));
             }
         }
+        // long lines: row counts with many / long cycles (gcd(R, R-mr) up to 50) and widths beyond the block sizes
+        // of chunked loops, owned and as an interior window
+        for (c, r) in long_shapes(tier) {
+            v.push(Recv::owned(c, r).enc());
+            v.push(Recv::window(c + 2, r + 2, (1, 1), (1 + c, 1 + r)).enc());
+        }
+        for (c, r) in super::hugezst::shapes() {
+            v.push(format!("hugezst {}x{}", c, r));
+        }
         v
     }
     fn run_unit(&self, unit: &str, ctx: &mut Ctx) {
+        if let Some(dims) = unit.strip_prefix("hugezst ") {
+            let (c, r) = super::hugezst::parse_shape(dims);
+            run_huge_zst(c, r, ctx);
+            return;
+        }
         if let Some(dims) = unit.strip_prefix("zst ") {
             let (c, r) = dims.split_once('x').unwrap();
             let (c, r): (usize, usize) = (c.parse().unwrap(), r.parse().unwrap());
@@ -142,5 +156,46 @@ impl Prop for C15P {
     }
     fn bound(&self, tier: Tier) -> String {
         format!("N = {} (every gcd(R, R-mr) cycle structure up to {0})", n_for(tier))
+    }
+}
+
+/// Shapes with long lines.
+fn long_shapes(tier: Tier) -> Vec<(usize, usize)> {
+    let mut v = vec![(1, 36), (2, 36), (1, 40), (1, 48), (2, 54), (1, 64), (1, 65), (1, 72), (1, 100), (3, 40), (36, 1), (64, 2), (65, 1), (70, 2), (100, 1), (129, 2)];
+    if tier == Tier::Thorough {
+        v.extend([(1, 128), (1, 144), (2, 200), (1, 256), (1, 257), (256, 1), (257, 2), (300, 3)]);
+    }
+    v
+}
+
+/// Arrays of () with close to usize::MAX cells: the mids that leave every cell in place ((0,0), (C,0), (0,R), (C,R))
+/// take constant time and must be accepted; a mid beyond a dimension must be rejected.
+fn run_huge_zst(c: usize, r: usize, ctx: &mut Ctx) {
+    use toodee::{TooDee, TooDeeOpsMut, TranslateOps};
+    let mut mids: Vec<((usize, usize), bool)> = vec![((0, 0), true), ((c, 0), true), ((0, r), true), ((c, r), true)];
+    if c < usize::MAX {
+        mids.push(((c + 1, 0), false));
+    }
+    if r < usize::MAX {
+        mids.push(((0, r + 1), false));
+    }
+    mids.push(((usize::MAX, usize::MAX), c == usize::MAX && r == usize::MAX));
+    for (mid, valid) in mids {
+        for window in [false, true] {
+            ctx.case(
+                || format!("TooDee<()> {}x{} {} translate_with_wrap({:?})", c, r, if window { "full-size view_mut" } else { "owned" }, mid),
+                |cs| {
+                    cs.nontrivial((c, r, mid, window));
+                    cs.outcome(if valid { "accepted" } else { "rejected" });
+                    let mut t: TooDee<()> = super::hugezst::array(c, r);
+                    let res = if window { guarded(|| t.view_mut((0, 0), (c, r)).translate_with_wrap(mid)) } else { guarded(|| t.translate_with_wrap(mid)) };
+                    match (valid, res) {
+                        (true, Err(m)) => cs.fail("translate:panics-on-valid", format!("mid {:?} is within ({},{}) but the call panicked: {}", mid, c, r, m)),
+                        (false, Ok(())) => cs.fail("translate:accepts-invalid", format!("mid {:?} is beyond ({},{}) but the call returned", mid, c, r)),
+                        _ => {}
+                    }
+                },
+            );
+        }
     }
 }
